@@ -751,7 +751,24 @@ def list_events(scope, name, key=None):
                 and node.func.attr in MUTATORS:
             g = [(ast.unparse(t), p) for t, p in scope.guards(node)]
             a = node.args
+            loop_form = None
             if node.func.attr == "append" and len(a) == 1:
+                # `for e in L: X.append(f(e))` as the loop's only statement is X.extend([f(e) for e in L])
+                st = scope.stmt_of(node)
+                owner = scope.block_of.get(st, (None, None))[0]
+                conds = []
+                if isinstance(owner, ast.If) and not owner.orelse and owner.body == [st]:
+                    conds, st2 = [owner.test], owner
+                    owner = scope.block_of.get(owner, (None, None))[0]
+                else:
+                    st2 = st
+                if isinstance(owner, ast.For) and not owner.orelse and owner.body == [st2] and isinstance(st, ast.Expr) and st.value is node \
+                        and not any(isinstance(x, ast.Name) and x.id == name for part in [a[0], owner.iter] + conds for x in ast.walk(part)):
+                    loop_form = ast.ListComp(elt=a[0], generators=[ast.comprehension(target=owner.target, iter=owner.iter, ifs=conds, is_async=0)])
+                    g = [(ast.unparse(t), p) for t, p in scope.guards(owner)]
+            if loop_form is not None:
+                ev.append((scope.order[node], "extend", key(loop_form), g))
+            elif node.func.attr == "append" and len(a) == 1:
                 ev.append((scope.order[node], "append", [key(a[0])], g))
             elif node.func.attr == "extend" and len(a) == 1:
                 ev.append((scope.order[node], "append" if elems(a[0]) is not None else "extend", elems(a[0]) if elems(a[0]) is not None else key(a[0]), g))
